@@ -37,6 +37,9 @@ type c18Case struct {
 	Format    string   `json:"format"` // config / code / default
 	// OutFile: write the profile with -out to a file that an earlier, longer profile of the same binary was written to.
 	OutFile bool `json:"out_file,omitempty"`
+	// Debug: the -d flag (the configuration output additionally lists every syscall site); the emitted profile must
+	// still load and mean the same
+	Debug bool `json:"debug,omitempty"`
 }
 
 func drawC18(t *rapid.T) c18Case {
@@ -120,6 +123,7 @@ func drawC18(t *rapid.T) c18Case {
 		return flags
 	}
 	c.OutFile = rapid.IntRange(0, 4).Draw(t, "outFile") == 0
+	c.Debug = rapid.IntRange(0, 3).Draw(t, "debug") == 0
 	c.Blacklist = build("b", true)
 	for _, v := range c.Blacklist {
 		for _, n := range splitFlag(v) {
@@ -214,6 +218,9 @@ func checkC18(raw json.RawMessage) (ev.Result, error) {
 	if c.Format != "default" {
 		args = append(args, "-format", c.Format)
 	}
+	if c.Debug {
+		args = append(args, "-d")
+	}
 	for _, v := range c.Blacklist {
 		args = append(args, "-b", v)
 	}
@@ -221,6 +228,9 @@ func checkC18(raw json.RawMessage) (ev.Result, error) {
 		args = append(args, "-allow", v)
 	}
 	res := ev.Result{Classes: []string{"format:" + c.Format, "binary:" + c.GOARCH}}
+	if c.Debug {
+		res.Classes = append(res.Classes, "debug-flag", "debug-flag/format:"+c.Format)
+	}
 	var run *profRun
 	if c.OutFile {
 		// first a longer profile (many always-allowed names) into the file, then the one under test into the same file
